@@ -591,6 +591,16 @@ def gen_xmlget(rng, S):
                    "xml_get_val_int32_args", "xml_get_val_uint64_args", "xml_get_val_int64_args")[s2 - 4]
             if n:
                 out.append((U.c_xmlget(s2, m, tags[:2], 1, 0, 1), M("xmlget", fn2, lcls(n) + "/tags%d" % len(tags[:2]), "typed")))
+    # namespace-aware extractor on unbalanced markup: opened with a prefix, closed with none / a shorter / another one, the
+    # close tag being the last thing in the (exact-size) input
+    for pre in (b"ns", b"abc", b"prefix9"):
+        for name in (b"a", b"ab", b"item"):
+            for close in (b"</" + name + b">", b"</x:" + name + b">", b"</" + pre[:1] + b":" + name + b">", b"</" + name, b"</" + pre + b":" + name + b">"):
+                for tail in (b"", b" "):
+                    d = b"<" + pre + b":" + name + b">v" + close + tail
+                    out.append((U.c_xmlget(1, d, [name], 1, 0, 6), M("xmlget", "xml_get_val_ns_arr", lcls(len(d)) + "/tags1", "ns-unbalanced")))
+                    d2 = b"<r><" + pre + b":" + name + b" k=\"1\">v" + close + tail
+                    out.append((U.c_xmlget(1, d2, [b"r", name], 1, 0, 6), M("xmlget", "xml_get_val_ns_arr", lcls(len(d2)) + "/tags2", "ns-unbalanced")))
     # xml_calc_tag_count_args drives the cursor protocol itself; documents whose last element ends
     # at the last byte are the natural case, so a few of each kind
     cnt_docs = [b"<a>1</a>", b"<a>1</a> ", b"<a>1</a><a>2</a>\n", b"<r><a>1</a><a>2</a></r>", b"<r><a>1</a></r>\n",
